@@ -455,6 +455,9 @@ func (h *harness) runTx(tx *txn) txResult {
 
 	if common.IsProposal013() {
 		adb.Prepare(hash, common.Hash{}, h.idx)
+		if h.probe != nil {
+			h.probe.afterPrepare(tx)
+		}
 	}
 	snapshot := adb.Snapshot()
 	evm := h.newEVM(origin)
@@ -464,6 +467,9 @@ func (h *harness) runTx(tx *txn) txResult {
 		err  error
 	)
 	value := big.NewInt(int64(tx.value))
+	if h.probe != nil {
+		h.probe.onPre(-1)
+	}
 	if tx.create {
 		_, _, _, logs, err = evm.Create(caller, prog.rootInit, gasCap, value)
 	} else {
@@ -479,6 +485,9 @@ func (h *harness) runTx(tx *txn) txResult {
 		_, _, logs, err = evm.Call(caller, target, input[:], gasCap, value)
 	}
 	success := err == nil
+	if h.probe != nil {
+		h.probe.rootExit(tx, success, h.dump())
+	}
 	if !success {
 		adb.RevertToSnapshot(snapshot)
 	}
